@@ -26,15 +26,19 @@ class Prop(common.PropertyCheck):
         for _ in range(self.budget(500, 6000)):
             yield {'res': rng.choice([256, 1024, 1000, 4096, 65536, 262144, 777]), 'units': rng.choice(['raw', 'rfi', 'mef']),
                    'scale': rng.choice(['linear', 'log', 'logicle']), 'n': rng.choice([None, 1, 2, 17, 256, 'res']),
-                   'chform': rng.choice(['name', 'pos', 'list', 'all', 'list_mixed']), 'over': rng.choice([None, None, 'T', 'M', 'W']),
-                   'seed': rng.randrange(1 << 30)}
+                   'chform': rng.choice(['name', 'pos', 'list', 'all', 'list_mixed']), 'over': rng.choice([None, None, 'T', 'M', 'W', 'W0']),
+                   'dt': rng.choice(['I', 'I', 'F']), 'seed': rng.randrange(1 << 30)}
         yield {'res': 1024, 'units': 'raw', 'scale': 'cubic', 'n': None, 'chform': 'name', 'over': None, 'seed': 1}
+        # unsupported entries inside a per-channel scale list
+        for badsc in (['linear', 'Log'], ['loglog', 'linear'], ['logicle', None], ['cubic', 'cubic'], ['linear', '']):
+            yield {'res': 1024, 'units': rng.choice(['raw', 'rfi']), 'scale': 'cubic', 'badlist': badsc, 'n': rng.choice([None, 8]), 'chform': 'list', 'over': None,
+                   'seed': rng.randrange(1 << 30)}
 
     def sample(self, case):
         import random
         r = random.Random(case['seed'])
         res = case['res']
-        spec = samples.spec_rich(r, N=12, D=3, datatype='I', log_channels=[1, 2], res=[res, res, 1024])
+        spec = samples.spec_rich(r, N=12, D=3, datatype=case.get('dt', 'I'), log_channels=[1, 2], res=[res, res, 1024])
         spec['widths'] = [32, 32, 32]
         spec['pne'] = {'1': '0,0', '2': r.choice(['4,1', '4,0', '3,1', '4.5,1']), '3': '4,1'}
         d, _ = samples.load(spec, name='c19.fcs')
@@ -63,7 +67,7 @@ class Prop(common.PropertyCheck):
         scalar = chf in ('name', 'pos')
         kw = {}
         if case['over'] and scale == 'logicle':
-            kw = {'T': {'T': 5e4}, 'M': {'M': 5.0}, 'W': {'W': 0.8}}[case['over']]
+            kw = {'T': {'T': 5e4}, 'M': {'M': 5.0}, 'W': {'W': 0.8}, 'W0': {'W': 0 if case['seed'] % 2 else 0.0}}[case['over']]
         nb = n
         if n == 'res':
             nb = None
@@ -73,6 +77,8 @@ class Prop(common.PropertyCheck):
             sc = [scale, 'linear']
         else:
             sc = scale
+        if case.get('badlist'):
+            sc = list(case['badlist'])
         out = {'cols': cols, 'scalar': scalar, 'ranges': [[float(x) for x in d.range(c)] for c in cols], 'resol': [int(d.resolution(c)) for c in cols]}
         try:
             e = d.hist_bins(ch, nb, sc, **kw)
@@ -96,6 +102,11 @@ class Prop(common.PropertyCheck):
             if out['scales'][i] == 'logicle':
                 t = FlowCal.plot._LogicleTransform(data=self.sample(case), channel=c, **kw)
                 tms.append([bits(t.T), bits(t.M), bits(t.W), bits(t._p)])
+                ev = np.asarray(edges[i], dtype=float)
+                if len(ev) <= 3000 and len(ev) >= 3:
+                    u = np.asarray(t.inverted().transform_non_affine(ev), dtype=float)      # data -> display (interpolated inverse)
+                    du = np.diff(u)
+                    out.setdefault('uniform_dev', {})[str(i)] = [float(np.max(np.abs(du - du.mean()))), float(t.M), float(t.T), float(t.W)]
             else:
                 tms.append(None)
         out['per'] = per
@@ -154,6 +165,9 @@ class Prop(common.PropertyCheck):
                     centre = (e[k] + e[k + 1]) / 2 if scale == 'linear' else math.sqrt(e[k] * e[k + 1])
                     if abs(centre - vals[k]) > 1e-9 * max(1, abs(vals[k])):
                         return '%s scale: value %r is not at the centre %r of its bin' % (scale, vals[k], centre)
+            ud = (impl.get('uniform_dev') or {}).get(str(i))
+            if ud and ud[0] > 0.01 * ud[1]:      # the interpolated inverse itself is accurate to ~2e-3*M near zero
+                return 'logicle edges are not the images of a uniform display grid under the logicle function with the requested parameters T=%r M=%r W=%r (overrides %s): spacing deviates by %r display units' % (ud[2], ud[1], ud[3], case['over'], ud[0])
             if impl['per'][i] != eb:
                 return 'edges of channel %d asked together with others differ from the edges asked alone' % impl['cols'][i]
         return None
@@ -183,10 +197,12 @@ class Prop(common.PropertyCheck):
         if len(me) != len(ie):
             return 'edge count: impl %d vs model %d' % (len(ie), len(me))
         span = max(abs(ie[0]), abs(ie[-1]))
+        # single-precision samples: the data-derived W is a float32 scalar and NumPy 2 then evaluates the logicle expressions in single precision
+        rel = 2e-6 if (case.get('dt') == 'F' and impl['scales'][0] == 'logicle') else 1e-9
         for a, b in zip(me, ie):
-            if abs(a - b) > 1e-9 * (abs(b) + (span if impl['scales'][0] == 'linear' else 0) + 1e-300) and abs(a - b) > 1e-7 * abs(ie[1] - ie[0]):
+            if abs(a - b) > rel * (abs(b) + (span if impl['scales'][0] == 'linear' else 0) + 1e-300) and abs(a - b) > 1e-7 * abs(ie[1] - ie[0]):
                 return '%s edges: Lean Float %r vs implementation %r' % (impl['scales'][0], a, b)
         return None
 
     def nontrivial_key(self, case, impl):
-        return (case['res'], case['units'], case['scale'], str(case['n']), case['chform'], case['over'])
+        return (case['res'], case['units'], case['scale'], str(case['n']), case['chform'], case['over'], case.get('dt'), str(case.get('badlist')))
